@@ -2,6 +2,7 @@ package main
 
 import (
 	"flag"
+	"go/token"
 	"fmt"
 	"os"
 	"path/filepath"
@@ -73,6 +74,7 @@ func main() {
 	dump := flag.String("dump", "", "write queries of failed/undecided obligations to this directory")
 	overlay := flag.String("overlaymod", "", "module directory with replace directives (vectors build)")
 	jsonOut := flag.String("json", "", "write machine-readable results to this file")
+	loopsOf := flag.String("loops", "", "print the loop ordinals (with source positions) of the named function and exit")
 	flag.Parse()
 
 	initScratch()
@@ -100,6 +102,46 @@ func main() {
 	g.verbose = *verbose
 	g.tagsLbl = *tags
 	tLoad := time.Since(t0)
+	if *loopsOf != "" {
+		fn := g.fnByName[*loopsOf]
+		if fn == nil {
+			for f := range ssautil.AllFunctions(prog) {
+				if fnName(f) == *loopsOf {
+					fn = f
+				}
+			}
+		}
+		if fn == nil {
+			fmt.Println("no such function")
+			os.Exit(2)
+		}
+		for _, l := range findLoops(fn) {
+			pos := token.NoPos
+			for _, in := range l.head.Instrs {
+				if in.Pos() != token.NoPos {
+					pos = in.Pos()
+					break
+				}
+			}
+			if pos == token.NoPos {
+				for b := range l.blocks {
+					for _, in := range b.Instrs {
+						if in.Pos() != token.NoPos && (pos == token.NoPos || in.Pos() < pos) {
+							pos = in.Pos()
+						}
+					}
+				}
+			}
+			var phis []string
+			for _, in := range l.head.Instrs {
+				if p, ok := in.(*ssa.Phi); ok {
+					phis = append(phis, p.Comment)
+				}
+			}
+			fmt.Printf("loop %d  head=b%d (%s)  %s  vars=%v\n", l.ord, l.head.Index, l.head.Comment, prog.Fset.Position(pos), phis)
+		}
+		return
+	}
 
 	rep := g.runAll(*fnFilter, *prop, *dump)
 	rep.LoadS = tLoad.Seconds()
